@@ -188,8 +188,8 @@ def shrink(prop, ctx, case, kind_of, budget=40):
     """delta-debugging style shrinking with a wall-clock budget: remove chunks of lines (halves, quarters, ...
     single lines) as long as the judge keeps reporting a verdict of the same kind.  Plugins may veto candidates
     (prop.shrink_ok) or switch shrinking off (prop.no_shrink)."""
-    if getattr(prop, "no_shrink", False):
-        return case
+    if getattr(prop, "no_shrink", False) or E.slow_tree():
+        return case   # on a tree that hangs every candidate would cost a time-out
     deadline = time.time() + float(os.environ.get("NV_SHRINK_SECONDS", "90"))
     want = kind_of
     cur = case
@@ -233,6 +233,12 @@ def shrink(prop, ctx, case, kind_of, budget=40):
 def evaluate(prop, ctx, cases, known):
     """run impl, model and judge on cases; returns dict with results"""
     impl = {k: prop.canon(v) for k, v in prop.run_impl(ctx, cases).items()}
+    # cases the harness did not run because the tree hangs (engine.run_harness / vh.c `notrun slow-tree`) carry no
+    # verdict: they are neither compared nor judged (the cases that did time out are)
+    skipped = [c for c in cases if impl.get(c.id) == E.NOTRUN]
+    if skipped:
+        E.log("slow tree: %d of %d cases were not run" % (len(skipped), len(cases)))
+        cases = [c for c in cases if impl.get(c.id) != E.NOTRUN]
     model = {k: prop.canon(v) for k, v in prop.run_model(ctx, cases).items()}
     jd = prop.run_judge(ctx, cases, impl)
     res = {"impl": impl, "model": model, "judge": jd, "violations": [], "known": [], "diffs": []}
